@@ -10,7 +10,7 @@ META = {
                   "pyrtcm.rtcmhelpers.len2bytes", "crc2bytes"],
     "transforms": ["if-conversion of RTCMMessage._set_attribute_single and calc_crc24q"],
     "shims": ["int", "bin", "chr"],
-    "bounds": {"quick": "all 4096 message numbers (solver-enumerated) x payload lengths {3,4}; all 256 sub-types of 4076 x lengths {3,5}; every other "
+    "bounds": {"quick": "all 4096 message numbers (solver-enumerated) x payload lengths {2,3,4}; all 256 sub-types of 4076 x lengths {3,5}; every other "
                         "payload bit symbolic; every defined identity once in directed mode (counts 1)",
                "thorough": "as quick plus payload lengths {2,6,16}"},
     "outside": "payloads longer than 16 bytes for the stub clauses (the stub path does not look at them)",
@@ -20,7 +20,7 @@ WALL_BUDGET = {"quick": 900, "thorough": 3000}
 
 
 def jobs(tier, seed):
-    lens = (3, 4) if tier == 'quick' else (2, 3, 4, 6, 16)
+    lens = (2, 3, 4) if tier == 'quick' else (2, 3, 4, 6, 16)
     out = [('num', hi, L) for hi in range(16) for L in lens]
     out += [('sub', L) for L in ((3, 5) if tier == 'quick' else (3, 5, 16))]
     out += [('defined', i) for i in range(8)]
